@@ -53,7 +53,7 @@ class GenericResolver(Generic[K, M]):
         )
 
     def _unpack_args(self, args):
-        if HAS_UNPACK and any(strip_alias(arg) == typing.Unpack for arg in args):
+        if HAS_UNPACK and any(strip_alias(arg) == typing.Unpack or getattr(arg, "__unpacked__", False) for arg in args):
             return tuple(arg.source for arg in normalize_type(tuple[args]).args)
         return args
 
